@@ -10,6 +10,10 @@
      - the contract itself as clauses over classes the harness computes at the call's return, evaluated by the trace
        specification (DfolsTrace.tla, action Kernel) so that verdicts are total and name the failing clause.
 
+   Calls of the solver's own (recorded inside solver runs) are judged by the same clauses when their data lie inside the scale domain
+   1e-8 <= |g|_inf <= 1e8, 1e-8 <= delta <= 1e8, |H|_max * delta <= 1e8 * |g|_inf (ten decades wider than the property's own); outside it the
+   event carries no clauses (the kernel's absolute DFBOLS thresholds decide there, which the statement does not cover).
+
    Contract clauses (each class is computed in harness/kernels.py next to its inequality and tolerance):
      trsbox          box_exact, norm_le_delta (1+1e-8), model_not_increased, beats_truncated_cauchy, gnew_is_g_plus_Hd
      trsbox_geometry box_1e-12, norm_le_delta, global_max_1e-6, not_worse_than_zero_step
